@@ -63,4 +63,6 @@ Section Wrapper.
 
   (* the weights the statistics refer to: sample_weight, or all ones when it is None *)
   Definition sc_effw (w : 'cV[F]_n) : 'cV[F]_n := if has_w cfg then w else const_mx 1.
+  (* the weights are usable: given sample weights have a non-zero sum *)
+  Definition sc_wok (w : 'cV[F]_n) : bool := has_w cfg ==> (wsum w != 0).
 End Wrapper.
